@@ -633,6 +633,44 @@ func gate(rep *ev.Reporter, c *cenv, cid caseID, p *prepared, cx int,
 				rep.Count("gate_within_limit_resolver_events", int64(resolverEvents(run)))
 			}
 		}
+		if over {
+			// --- the gate does not depend on the state of the request context: a client that has hung
+			// up (or an expired deadline) must not turn an over-limit operation into an executed one
+			n++
+			exC := executor.New(c.env.ES)
+			exC.SetRecoverFunc(func(ctx context.Context, r any) error { return fmt.Errorf("PANIC:%v", r) })
+			exC.Use(extension.FixedComplexityLimit(L))
+			runC := &univ.Run{Plan: &univ.SeedPlan{Seed: cid.FSet.Seed, MaxList: 2}}
+			cctx, cancel := context.WithCancel(graphql.StartOperationTrace(univ.WithRun(context.Background(), runC)))
+			cancel()
+			opC, errsC := exC.CreateOperationContext(cctx, &graphql.RawParams{Query: cid.Query, OperationName: cid.OpName, Variables: decodeVars(cid.Vars)})
+			if len(errsC) == 0 {
+				drain(exC, cctx, opC)
+			}
+			rep.Count("gate_cancelled_context_cases", 1)
+			if k := resolverEvents(runC); k > 0 || len(errsC) == 0 {
+				fail("", "gate-cancelled-context", fmt.Sprintf("complexity %d exceeds limit %d; with an already cancelled request context the operation was accepted=%v and %d resolver invocation(s) happened", cx, L, len(errsC) == 0, k), runC.Events())
+			}
+			// --- the gate measures the operation that will run: an extension pins operationName to
+			// the expensive operation of a two-operation document while the client names the cheap one
+			if cid.OpName != "" {
+				n++
+				exP := executor.New(c.env.ES)
+				exP.SetRecoverFunc(func(ctx context.Context, r any) error { return fmt.Errorf("PANIC:%v", r) })
+				exP.Use(pinOperation{cid.OpName})
+				exP.Use(extension.FixedComplexityLimit(L))
+				runP := &univ.Run{Plan: &univ.SeedPlan{Seed: cid.FSet.Seed, MaxList: 2}}
+				pctx := graphql.StartOperationTrace(univ.WithRun(context.Background(), runP))
+				opP, errsP := exP.CreateOperationContext(pctx, &graphql.RawParams{Query: "query VerifCheap { __typename }\n" + cid.Query, OperationName: "VerifCheap", Variables: decodeVars(cid.Vars)})
+				if len(errsP) == 0 {
+					drain(exP, pctx, opP)
+				}
+				rep.Count("gate_pinned_operation_cases", 1)
+				if k := resolverEvents(runP); k > 0 || len(errsP) == 0 {
+					fail("", "gate-pinned-operation", fmt.Sprintf("two-operation document, an operation-parameter extension pins operationName to %q (complexity %d, limit %d) while the client named the cheap one: accepted=%v, %d resolver invocation(s)", cid.OpName, cx, L, len(errsP) == 0, k), runP.Events())
+				}
+			}
+		}
 		// --- through handler.Server + POST
 		if alsoHTTP {
 			n++
@@ -640,6 +678,17 @@ func gate(rep *ev.Reporter, c *cenv, cid caseID, p *prepared, cx int,
 		}
 	}
 	return n
+}
+
+// pinOperation is what trusted-document / persisted-operation extensions do: it decides which
+// operation of the document runs, whatever the client named.
+type pinOperation struct{ name string }
+
+func (pinOperation) ExtensionName() string                   { return "VerifPinOperation" }
+func (pinOperation) Validate(graphql.ExecutableSchema) error { return nil }
+func (p pinOperation) MutateOperationParameters(ctx context.Context, rp *graphql.RawParams) *gqlerror.Error {
+	rp.OperationName = p.name
+	return nil
 }
 
 func drain(ex *executor.Executor, ctx context.Context, opCtx *graphql.OperationContext) []*graphql.Response {
